@@ -1,1 +1,181 @@
-fn main() { println!("gasim"); }
+#[macro_use]
+mod gen;
+mod alloc;
+mod driver;
+mod elem;
+mod exec;
+mod exec_heap;
+mod exec_serde;
+mod lanes;
+mod ledger;
+mod ops;
+mod props;
+mod rng;
+mod run;
+mod world;
+
+use std::path::Path;
+use std::sync::atomic::Ordering::Relaxed;
+
+#[global_allocator]
+static GLOBAL: alloc::SimAlloc = alloc::SimAlloc;
+
+fn install_hook() {
+    std::panic::set_hook(Box::new(|info| {
+        let _g = alloc::enter(alloc::Ctx::Infra);
+        if info.payload().downcast_ref::<ledger::SimPanic>().is_some() {
+            return;
+        }
+        let msg = if let Some(s) = info.payload().downcast_ref::<&'static str>() {
+            s.to_string()
+        } else if let Some(s) = info.payload().downcast_ref::<String>() {
+            s.clone()
+        } else {
+            "<non-string panic>".to_string()
+        };
+        let loc = info.location().map(|l| format!(" at {}:{}", l.file(), l.line())).unwrap_or_default();
+        if std::env::var_os("GASIM_VERBOSE").is_some() {
+            eprintln!("[panic] {msg}{loc}");
+        }
+        // keep the last message where the SIGABRT handler can find it without allocating
+        let full = format!("{msg}{loc}");
+        unsafe {
+            let b = full.as_bytes();
+            let n = b.len().min(LAST_MSG_CAP);
+            let dst = std::ptr::addr_of_mut!(LAST_MSG) as *mut u8;
+            std::ptr::copy_nonoverlapping(b.as_ptr(), dst, n);
+            LAST_MSG_LEN.store(n, Relaxed);
+        }
+        ledger::set_panic_msg(full);
+    }));
+    unsafe {
+        libc::signal(libc::SIGABRT, on_abort as usize);
+    }
+}
+
+const LAST_MSG_CAP: usize = 600;
+static mut LAST_MSG: [u8; LAST_MSG_CAP] = [0; LAST_MSG_CAP];
+static LAST_MSG_LEN: std::sync::atomic::AtomicUsize = std::sync::atomic::AtomicUsize::new(0);
+
+/// a non-unwinding panic (unsafe-precondition check, panic in a nounwind frame) ends in abort():
+/// print the last panic message so that the parent can classify the death
+extern "C" fn on_abort(_sig: libc::c_int) {
+    unsafe {
+        let n = LAST_MSG_LEN.load(Relaxed);
+        if n > 0 {
+            let pre = b"\n[last panic before abort] ";
+            libc::write(2, pre.as_ptr() as *const libc::c_void, pre.len());
+            libc::write(2, std::ptr::addr_of!(LAST_MSG) as *const libc::c_void, n);
+            libc::write(2, b"\n".as_ptr() as *const libc::c_void, 1);
+        }
+        libc::signal(libc::SIGABRT, libc::SIG_DFL);
+        libc::raise(libc::SIGABRT);
+    }
+}
+
+fn load_trace(p: &str) -> run::Trace {
+    let v: serde_json::Value = serde_json::from_slice(&std::fs::read(p).unwrap_or_else(|e| driver::harness_error(&format!("{p}: {e}")))).unwrap_or_else(|e| driver::harness_error(&format!("{p}: {e}")));
+    run::trace_from_json(&v).unwrap_or_else(|e| driver::harness_error(&e))
+}
+
+fn real_main(args: &[String]) -> i32 {
+    match args.get(1).map(|s| s.as_str()) {
+        Some("check") => {
+            let prop = ops::Prop::from_name(args.get(2).map(|s| s.as_str()).unwrap_or("")).unwrap_or_else(|| driver::harness_error("unknown property"));
+            match args.get(3).map(|s| s.as_str()) {
+                Some("--replay") => driver::replay_cmd(Path::new(args.get(4).unwrap_or_else(|| driver::harness_error("--replay needs a file")))),
+                Some(t @ ("quick" | "thorough")) => driver::check(prop, t),
+                None => driver::check(prop, &std::env::var("VERIF_TIER").unwrap_or_else(|_| "quick".into())),
+                _ => driver::harness_error("usage: gasim check <Cxx> quick|thorough|--replay <file>"),
+            }
+        }
+        Some("worker") => {
+            let prop = ops::Prop::from_name(&args[2]).unwrap();
+            let base: u64 = args[3].parse().unwrap();
+            let from: u64 = args[4].parse().unwrap();
+            let to: u64 = args[5].parse().unwrap();
+            let samples: usize = args[7].parse().unwrap();
+            let known: Vec<String> = args.get(8).map(|s| s.split('|').filter(|x| !x.is_empty()).map(|x| x.to_string()).collect()).unwrap_or_default();
+            driver::worker(prop, base, from, to, Path::new(&args[6]), &known, samples);
+            0
+        }
+        Some("minimise") => {
+            driver::minimise_cmd(Path::new(&args[2]), Path::new(&args[3]));
+            0
+        }
+        Some("replay") => driver::replay_cmd(Path::new(&args[2])),
+        Some("exec") => {
+            let t = load_trace(&args[2]);
+            let r = run::run_trace(&t, false);
+            if let Some(v) = r.violation {
+                println!("violation class={} at_op={} ({}): {}", v.class, v.at_op, v.op_name, v.detail);
+            }
+            0
+        }
+        Some("bigstack") => lanes::bigstack_child(&args[2]),
+        Some("alloccount") => {
+            let t = load_trace(&args[2]);
+            run::ALLOC_FAIL_LAST.store(-1, Relaxed);
+            let r = run::run_trace(&t, false);
+            println!("LIBALLOCS={}", run::LAST_OP_LIB_ALLOCS.load(Relaxed));
+            if r.violation.is_some() {
+                // violations of the fault-free execution are the business of the main batch
+            }
+            0
+        }
+        Some("allocfail") => {
+            let t = load_trace(&args[2]);
+            let j: i64 = args[3].parse().unwrap();
+            run::ALLOC_FAIL_LAST.store(j, Relaxed);
+            let r = run::run_trace(&t, false);
+            println!("FIRED={}", run::LAST_OP_FAILS_FIRED.load(Relaxed));
+            if let Some(v) = r.violation {
+                if run::LAST_OP_FAILS_FIRED.load(Relaxed) > 0 {
+                    println!("violation class={} at_op={} ({}): {}", v.class, v.at_op, v.op_name, v.detail);
+                    return 5;
+                }
+            }
+            0
+        }
+        Some("run") => {
+            let prop = ops::Prop::from_name(&args[2]).expect("prop");
+            let n: u64 = args[3].parse().unwrap();
+            let base: u64 = args.get(4).map(|s| s.parse().unwrap()).unwrap_or(1);
+            let t0 = std::time::Instant::now();
+            let mut ops = 0u64;
+            let mut noop = 0u64;
+            for i in 0..n {
+                let seed = rng::run_seed(base, prop.num(), i);
+                let t = props::gen_trace(prop, seed);
+                let r = run::run_trace(&t, false);
+                ops += r.ops_executed;
+                noop += r.ops_noop;
+                if let Some(v) = r.violation {
+                    println!("run {i} seed {seed}: {} at op {} ({}): {}", v.class, v.at_op, v.op_name, v.detail);
+                    println!("{}", serde_json::to_string(&run::trace_to_json(&t)).unwrap());
+                    return 1;
+                }
+            }
+            println!("ok {n} runs, {ops} ops ({noop} no-op) in {:?}", t0.elapsed());
+            0
+        }
+        _ => {
+            eprintln!("usage: gasim check <Cxx> quick|thorough | check <Cxx> --replay <file> | replay <file>");
+            2
+        }
+    }
+}
+
+fn main() {
+    install_hook();
+    let args: Vec<String> = std::env::args().collect();
+    // a panic that escapes to here is a bug in the harness, never a violation
+    let code = match std::panic::catch_unwind(|| real_main(&args)) {
+        Ok(c) => c,
+        Err(_) => {
+            eprintln!("HARNESS-ERROR internal panic: {}", ledger::take_panic_msg().unwrap_or_default());
+            2
+        }
+    };
+    std::process::exit(code);
+}
